@@ -50,3 +50,9 @@ PROPS["C08"] = {"lean_modules": ["Vet.Props.C08"], "corr": ["corr.registry"], "t
                 "explanation": "Theorems about the model of the unpublished-version choice, the audit-as-crates-io consistency check and the classification; tie: real cmd_check on disk against a mock registry over registry states, outcome class vs the model, oracles on the recorded choice and on the --locked run after publication."}
 PROPS["C17"] = {"lean_modules": ["Vet.Props.C17"], "corr": ["corr.suggest", "corr.wire"], "trusted": CORE_TRUST + ["diffstat (mocked |to^2 - from^2| offline)", "which versions have sources (offline rule)"], "assumptions": CORE_ASSUME,
                 "explanation": "Theorems about the model of suggest_delta / compute_suggested_criteria / the de-duplication and the healing lemma on the audit graph; tie: the real compute_suggest on failing worlds, recommendation must be a least-cost member of the model's candidates; oracle: certify all proposals for their criteria and re-run the real resolver."}
+
+PROPS["C14"] = {"lean_modules": ["Vet.Props.C14"], "corr": ["corr.serde"], "trusted": ["toml / toml_edit text layer and the layout pass (exercised on the real code only)", "serde derive mechanics", "semver / date printing and parsing"], "assumptions": ["stores that can arise by parsing (no empty versioned policy map, no `:` in unversioned policy names)"],
+                "explanation": "Theorems about the model of the hand-written (de)serialisers on TOML value trees; tie: the real serde code vs the model on audit entries and policy tables, and full text round trips of generated stores through the real serialiser and the real loader with the formatting check on (compare, write again, bytes equal)."}
+PROPS["C19"] = {"lean_modules": ["Vet.Props.C19"], "corr": ["corr.unpack"], "trusted": ["tar 0.4.38 Entry::unpack_in (modelled from its source, tied by tree correspondence)", "flate2", "the OS file system; power-loss durability not modelled", "crash points are entry boundaries (a corrupt header after k entries)"], "assumptions": [],
+                "shards": {"quick": 4, "thorough": 8},
+                "explanation": "Theorems about the model of unpack_package / fetch; tie: real Cache::fetch_package on a temp cache with crafted archives cut short after k entries and retried, whole-tree comparison with the model and direct confinement / completeness oracles."}
